@@ -3,6 +3,8 @@
 A `Link` holds the virtual clock and the list of connection environments of a scenario; each environment has a live
 SimDevice behind it.  Everything the simulator emits is recorded as (needOut, bytes) segments for the model replay.
 """
+import asyncio
+
 from adb_shell.transport.base_transport import BaseTransport
 from adb_shell.transport.base_transport_async import BaseTransportAsync
 from adb_shell import exceptions
@@ -114,6 +116,32 @@ class Link(object):
         self.events = []      # 'tclose' / 'tconnect'
 
     # -- the four transport operations, synchronous core ----------------------------------------------------
+    def peek_cost(self, kind, tt):
+        """Virtual time the next bulk_read ('r') / bulk_write ('w') with transport timeout `tt` will take (no side effects; mirrors the branches below)."""
+        c = self.cur
+        if c is None or c.is_reset:
+            return 0
+        wait = 0 if tt is None else max(to_ticks(tt), 0)
+        if kind == "r":
+            if c.is_eof:
+                return c.dt
+            f = c.next_fault("in", c.in_off)
+            if f is not None:
+                return wait if f[2] == "timeout" else (0 if f[2] == "reset" else c.dt)
+            fl = c.frags[0] if (c.frag_left is None and c.frags) else c.frag_left
+            if fl == 0:
+                return c.dt
+            return c.dt if c.pending else wait
+        f = c.next_fault("out", c.out_off)
+        if f is not None:
+            return wait if f[2] == "timeout" else 0
+        idx = getattr(c, "wcount", 0)
+        if idx in c.env.get("ozeros", ()) and not c.wnone:
+            return max(c.dt, 1)
+        if idx in c.env.get("olate", ()) and tt is not None:
+            return wait
+        return c.dt
+
     def wait_timeout(self, tt):
         if tt is None:
             raise SimHang()
@@ -329,8 +357,26 @@ class GuardAsyncLock(object):
 
 
 class MemTransportAsync(BaseTransportAsync):
-    def __init__(self, link):
+    """`vsleep=True` (single-task sessions on a vloop.VLoop): the duration of every call is spent in `asyncio.sleep` BEFORE the call takes
+    effect, and a transport-timeout wait is slept after it, so that a cancellation by the event loop (asyncio.wait_for and friends in the
+    code under test) lands where it would with a real transport: the cancelled call has transferred nothing."""
+
+    def __init__(self, link, vsleep=False):
         self.link = link
+        self.vsleep = vsleep
+
+    async def _timed(self, kind, *a):
+        link = self.link
+        fn = link.bulk_read if kind == "r" else link.bulk_write
+        if not self.vsleep:
+            return fn(*a)
+        pred = link.peek_cost(kind, a[-1])
+        if pred > 0:
+            await asyncio.sleep(pred / 1024.0)       # the call's duration: nothing has happened yet if we are cancelled here
+        try:
+            return fn(*a)                            # charges its (same) cost on the clock again ...
+        finally:
+            link.clock.now -= pred                   # ... so take the part already slept back
 
     async def close(self):
         self.link.close()
@@ -339,7 +385,7 @@ class MemTransportAsync(BaseTransportAsync):
         self.link.connect(transport_timeout_s)
 
     async def bulk_read(self, numbytes, transport_timeout_s):
-        return self.link.bulk_read(numbytes, transport_timeout_s)
+        return await self._timed("r", numbytes, transport_timeout_s)
 
     async def bulk_write(self, data, transport_timeout_s):
-        return self.link.bulk_write(data, transport_timeout_s)
+        return await self._timed("w", data, transport_timeout_s)
